@@ -226,6 +226,9 @@ theorem encField_inj (f : Field) (hf : f.selfDelim = true) (env env' : Env) (r s
   | joined _ _ => simp [Field.selfDelim] at hf
   | mapRaw _ => simp [Field.selfDelim] at hf
   | opt _ _ => simp [Field.selfDelim] at hf
+  | tag b =>
+    have h' : lpB b ++ r = lpB b ++ s := h
+    exact ⟨rfl, List.append_cancel_left h'⟩
   | fixed n x =>
     simp only [Field.wt, beq_iff_eq] at hw hw'
     obtain ⟨e, e'⟩ := sd_fixed n _ _ _ _ hw hw' h
@@ -266,6 +269,7 @@ theorem encField_last_inj (f : Field) (hf : f.lastOk = true) (env env' : Env)
     | lp _ => simp [Field.selfDelim] at hsd
     | lpList _ => simp [Field.selfDelim] at hsd
     | lpMap _ => simp [Field.selfDelim] at hsd
+    | tag _ => simp [Field.selfDelim] at hsd
     | joined _ _ => simp [Field.lastOk, Field.selfDelim] at hf
     | mapRaw _ => simp [Field.lastOk, Field.selfDelim] at hf
     | opt c g =>
@@ -286,6 +290,7 @@ theorem encField_last_inj (f : Field) (hf : f.lastOk = true) (env env' : Env)
         | joined _ _ => simp [Field.lastOk, Field.selfDelim] at hf
         | mapRaw _ => simp [Field.lastOk, Field.selfDelim] at hf
         | opt _ _ => simp [Field.lastOk, Field.selfDelim] at hf
+        | tag _ => simp [Field.lastOk, Field.selfDelim] at hf
       simp only [Field.wt, Bool.or_eq_true, Bool.not_eq_true'] at hw hw'
       simp only [encField] at h
       simp only [Field.dep, Dep.view]
@@ -363,6 +368,7 @@ theorem encField_reorder (f : Field) (hf : f.ordered = true) {env env' : Env} (h
   | mapRaw s => simp [Field.ordered] at hf
   | lpMap s => simp [encField, (hr.map s).length_eq, sortKV_eq_of_perm (hr.map s) (hn s)]
   | opt c g ih => simp [encField, hr.has, ih (by simpa [Field.ordered] using hf)]
+  | tag b => rfl
 
 /-- **determinism**: an ordered field list writes the same bytes whatever order the runtime iterates maps in -/
 theorem encode_reorder {fs : List Field} (ho : ordered fs = true) {env env' : Env} (hr : Reorder env env')
